@@ -872,6 +872,12 @@ inline model::MLib library(Rng& r, const Cfg& cfg) {
     if (cfg.mode == canon::GDS && r.chance(0.04)) c.span = 1000000000;  // near the 32-bit limit of the format
     if (cfg.mode == canon::OAS && r.chance(0.04)) c.span = (dg_t)1 << 38;  // OASIS integers are not limited to 32 bits
     m.name = r.chance(0.5) ? "LIB" : ident(r, 1, 14);
+    if (cfg.long_strings && r.chance(0.15)) {
+        // library names as long as a record allows (GDSII only stores them; OASIS has no library name)
+        static const int lens[] = {127, 128, 255, 256, 1019, 1020, 1021, 1022, 4095, 4096, 32767, 32768, 65529, 65530};
+        int n = r.chance(0.5) ? lens[r.below(14)] : (int)r.range(15, 3000);
+        m.name = ident(r, n, n);
+    }
     static const double units[] = {1e-6, 1e-6, 1e-6, 1e-3, 1e-9, 2e-6, 1.0, 2.54e-5};
     static const double ratios[] = {1000, 1000, 100, 10, 2000, 10000, 1, 400, 4096, 256, 65536, 16};
     m.unit = units[r.below(8)];
@@ -921,7 +927,16 @@ inline model::MLib library(Rng& r, const Cfg& cfg) {
             cell.polys.push_back(polygon(c, big));
             if (cell.polys.back().pts.size() >= 8000) big_done = true;
         }
-        for (int k = 0; k < nw; k++) cell.paths.push_back(path(c));
+        for (int k = 0; k < nw; k++) {
+            cell.paths.push_back(path(c));
+            // some paths reach their size through the library's own scale(): RobustPath keeps the factor as hidden
+            // state (width and offset scales, a transform) that every writer has to apply
+            model::MPath& pp = cell.paths.back();
+            if (pp.bend == 0 && r.chance(0.12)) {
+                static const double ks[] = {2, 4, 0.5, 0.25};
+                pp.prescale = ks[r.below(4)];
+            }
+        }
         if (cfg.big_polygons && !big_path_done && r.chance(0.05)) {
             // a simple path above the 8190-point limit of one XY record
             big_path_done = true;
